@@ -62,6 +62,43 @@ CHECKS.update({
     design="6/C13"),
 })
 
+CHECKS.update({
+ "C12": dict(
+    text="Coq theorems about the byte-level model of encodeLeaf/encodeInternal/decode and the header codec: every admissible "
+         "node (0..max cells, values 0..400 bytes, any flags, offsets a permutation) encodes to exactly pageSize bytes and "
+         "decodes to the same node; nodes whose slot array is longer than their live cells (left half of a split) decode to "
+         "the same logical content; the first-byte dispatch of fetch; round trip through a file image. Constants come from "
+         "Gen/Params.v, regenerated from page.go on every run, with the arithmetic facts re-proved on the current values. "
+         "Correspondence: Go encode() bytes = model bytes, Go decode = model decode, update -> cold fetch, on exhaustive "
+         "small shapes, maximum occupancy and random pages.",
+    note="Trusted: Coq kernel + vm_compute; translator tools/gen_params (go/types constant evaluation); model of "
+         "encoding/binary and bytes.Buffer semantics (Model/Bytes.v, CodecBase.v). No axioms.",
+    technique="Coq proof (round-trip theorems over byte lists) + byte-exact codec correspondence",
+    design="6/C12"),
+ "C19": dict(
+    text="Coq theorem over the model of doBatchInsert/csvToSql: for every reader event stream, schema and mapping the table "
+         "afterwards is the table before plus exactly the converted accepted records in input order, one ok/error event per "
+         "record, rejected records leave no trace. encoding/csv is an oracle whose deliveries (records, parse errors) are "
+         "taken from a second real reader; Atoi/ParseInt are modelled and cross-checked. Correspondence against a real "
+         "relation service: event sequence and SELECT * afterwards.",
+    note="Trusted: Coq kernel + vm_compute; encoding/csv as oracle; the storage behind EvaluateInsert abstracted to a row list "
+         "with the validation rules (type, int32 range, 400-byte size) restated in Model/Csv.v; hypothesis no_panic "
+         "(len(srcCols) <= len(colTypes)). No axioms.",
+    technique="Coq proof (induction over the record stream) + correspondence with the real importer",
+    design="6/C19"),
+ "C20": dict(
+    text="Coq theorems over the model of the console line buffer (bytesToKey, readLine, handleKey for printable keys / Enter / "
+         "bracketed paste, splitStatements): for every list of well-formed statements (literals may contain ';', the other "
+         "quote kind, spaces) and every placement of line breaks and typed/pasted delivery, the submitted statements are "
+         "exactly the normalised statements, once each and in order, literals intact; an incomplete line never submits. "
+         "Correspondence: Terminal.ReadLine over generated byte streams (all single break positions of short scripts, "
+         "multi-break, pasted, chunked; plus out-of-scope inputs model-vs-Go only).",
+    note="Trusted: Coq kernel + vm_compute; maxLineLength carried as hypothesis `fits`; editing keys outside the quantifier; "
+         "runTerminal (needs a tty) modelled by hand, not driven. No axioms.",
+    technique="Coq proof (state-machine invariant over key lists) + correspondence with Terminal.ReadLine",
+    design="6/C20"),
+})
+
 NOT_YET = {
 }
 
